@@ -194,6 +194,7 @@ func c07CheckConn(c C07Case) *pbt.Violation {
 			return pbt.V("c07.conn.write", "Conn applies its threshold", "WritePacket #%d: %v", i, err)
 		}
 	}
+	a.CloseWrite() // nothing more follows: a reader that loses the framing gets an error, not a wait
 	var recv pk.Packet
 	var kept []pk.Packet
 	for i, f := range c.Frames {
